@@ -89,6 +89,7 @@ TABLE = [
     (r"inner_locustdb\.rs", r"schedule_query_column_names", r"^\) \.unwrap\(\);?$|QueryTask::new\(", ("Guarded", "read_column queries are not select-star and contain no aggregates: QueryTask::new cannot fail")),
     (r"inner_locustdb\.rs", r"query_column_names", r"block_on\(receiver\)\.unwrap\(\)", ("Known", "Canceled when the pool thread running the column-name query panics (consequence of a lost worker)")),
     (r"inner_locustdb\.rs", r"query_column_names", r"assert!\(result\.columns\.len\(\) == 1|result\.columns\.pop\(\)\.unwrap\(\)", ("Known", "F31: a _meta_columns_ table without partitions answers with an empty columns vector")),
+    (r"inner_locustdb\.rs", r"flush_table_buffer", r"clone_column_handles\(\) \.into_iter\(\) \.filter\(\|c\| !c\.is_emp", ("Guarded", "placeholder handles are filtered out (fix 7a0a728); the remaining handles of a freshly batched partition are resident")),
     (r"inner_locustdb\.rs", r"flush_table_buffer", r"clone_column_handles\(\) \.into_iter\(\) \.map\(\|c\| c\.try_get\(\)", ("Known", "F14 placeholder column handle (C10)")),
     (r"inner_locustdb\.rs", r"compact", r"assert_eq!\(|panic!\(|cols\.into_values\(\)\.next\(\)\.unwrap\(\)", ("Guarded", "compaction invariants (C07); a failure is the flush-job panic modelled by flush_iter _ true (F2)")),
     (r"inner_locustdb\.rs", r"create_if_empty|create_if_empty_no_ingest|log_metrics", r"duration_since\(UNIX_EPOCH\)\s*\.unwrap\(\)|^\.unwrap\(\)$|\.unwrap\(\) \.as_secs\(\)", ("Guarded", "system clock after 1970")),
